@@ -1,0 +1,29 @@
+//go:build verif
+
+package manifest
+
+import (
+	"bufio"
+	"bytes"
+)
+
+// VerifEncodeEdit exposes writeEdit (frame = length prefix + payload as written to the MANIFEST file).
+func VerifEncodeEdit(edit Edit) ([]byte, error) {
+	var buf bytes.Buffer
+	if err := writeEdit(&buf, edit); err != nil {
+		return nil, err
+	}
+	return buf.Bytes(), nil
+}
+
+// VerifDecodeEdit exposes decodeEdit (payload without the frame header).
+func VerifDecodeEdit(data []byte) (Edit, error) { return decodeEdit(data) }
+
+// VerifReadEdit exposes readEdit on a byte stream (frame header + payload), returning
+// the decoded edit and the number of bytes consumed.
+func VerifReadEdit(stream []byte) (Edit, int, error) {
+	br := bytes.NewReader(stream)
+	r := bufio.NewReaderSize(br, 16)
+	e, err := readEdit(r)
+	return e, len(stream) - br.Len() - r.Buffered(), err
+}
